@@ -68,11 +68,50 @@ def create_fields(ctx):
     ob = Obs(ctx, "R18.2", fn, "create")
     ev = e2.Eval(c, {seed_hid: e2.top("u64")}, {}, ob)
     b = _body_block(fn)
+    built = {}          # hid of a local holding a Generator literal -> {field: abstract value}
+
+    def field_of_built(n):
+        n = strip(n)
+        if n is not None and n.get("k") == "field" and e4.local_hid(n["b"]) in built:
+            return built[e4.local_hid(n["b"])], n["f"]
+        return None
     for s in b["stmts"]:
+        s0 = strip(s)
+        init = strip(s0.get("init")) if s0.get("k") == "let" else None
+        if init is not None and init.get("k") == "struct" and init["path"].endswith(GEN) and s0["pat"].get("k") == "bind":
+            # `let mut g = Generator { .. };`  the fields of g are tracked one by one
+            built[s0["pat"]["hid"]] = {name: ev.eval(e) for name, e in init["fs"]}
+            continue
+        if s0.get("k") in ("assign", "assignop") and field_of_built(s0["l"]) is not None:
+            fs_, f_ = field_of_built(s0["l"])
+            saved = {k_: ev.fields.get(k_) for k_ in fs_}
+            ev.fields.update(fs_)
+            # reads of g.<field> on the right-hand side see the tracked values (as the fields of `self` would)
+            def subst(x):
+                if isinstance(x, list):
+                    return [subst(v) for v in x]
+                if not isinstance(x, dict):
+                    return x
+                fb = field_of_built(x) if x.get("k") == "field" else None
+                if fb is not None:
+                    return {"k": "field", "b": {"k": "local", "name": "self", "hid": -1}, "f": fb[1], "t": x.get("t"), "line": x.get("line")}
+                return {k_: subst(v) for k_, v in x.items()}
+            r = ev.eval(subst(s0["r"]))
+            if s0["k"] == "assignop":
+                r = ev.arith(s0["op"].replace("Assign", ""), fs_[f_], r, s0)
+            fs_[f_] = r
+            for k_, v_ in saved.items():
+                if v_ is None:
+                    ev.fields.pop(k_, None)
+                else:
+                    ev.fields[k_] = v_
+            continue
         ev.stmt(s)
     lit = strip(b["tail"])
     while lit is not None and lit.get("k") == "call" and len(lit["args"]) == 1:  # wrappers like Ok(..)
         lit = strip(lit["args"][0])
+    if lit is not None and lit.get("k") == "local" and lit["hid"] in built:
+        return fn, built[lit["hid"]]
     if lit is None or lit.get("k") != "struct" or not lit["path"].endswith(GEN):
         raise Unestablished("Generator::create does not end in a Generator literal", c.loc(fn))
     fields = {}
@@ -109,7 +148,8 @@ def r1_r2_r3(ctx):
         for w in mv["facts"]["writes"] + mv["facts"]["mutborrows"]:
             if w["adt"] == GEN:
                 n_w += 1
-                ok = mv["parent"] == GEN + "::generate" and w["field"] == "current"
+                # (create may finish the value it is building field by field: those writes are part of the abstract evaluation of create above)
+                ok = (mv["parent"] == GEN + "::generate" and w["field"] == "current") or mv["parent"] == GEN + "::create"
                 ctx.check("R18.1", "writer:%s.%s" % (mv["parent"], w["field"]), ok, "generator-field-written-elsewhere",
                           "%s:%s" % (mk, w["line"]), "only generate writes current", "%s writes Generator.%s" % (mk, w["field"]))
     for f in c.adts[GEN]["variants"][0]["fields"]:
